@@ -94,7 +94,8 @@ NAMES = ["a", "file.txt", "two words", "x;y=z", "-dash", "250 ok", "é", " lead"
 
 
 def listing_case(args):
-    zone, off, seed, fallback = args
+    zone, off, seed, fallback = args[:4]
+    native = args[4] if len(args) > 4 else None   # None: times and sizes spoofed in stat results; else the backend's own times are set
     os.environ["TZ"] = zone
     time.tzset()
     rng = random.Random(seed)
@@ -107,9 +108,11 @@ def listing_case(args):
         typ = rng.choice(["file", "file", "dir"])
         size = rng.choice([0, 1, 5, 2 ** 31, 2 ** 40, 123456789012])
         mt = now - rng.choice([0, 59, 3600, D, 30 * D, HALF - 3 * D, HALF + 3 * D, 365 * D, 5 * 365 * D, 100 * D + 17])
+        if native:
+            size = 1
         truth.append({"name": nm, "type": typ, "size": str(size) if typ == "file" else "0", "mtime": max(0, mt)})
     users = [{"id": "u1", "login": "u1", "pw": "", "max": 0, "perms": [], "home": [], "base": ["R"]}]
-    cfg = gen.std_cfg(ns=1, users=users)
+    cfg = gen.std_cfg(ns=1, users=users, backend=native or "memory")
     tree = {"d": [["R"], ["R", "dir"]] + [["R", "dir", t["name"]] for t in truth if t["type"] == "dir"],
             "f": [{"p": ["R", "dir", t["name"]], "c": [1]} for t in truth if t["type"] == "file"]}
     by = {t["name"]: t for t in truth}
@@ -122,7 +125,21 @@ def listing_case(args):
             if t is None or path.parent.name != "dir":
                 return st
             return st._replace(st_size=int(t["size"]) if t["type"] == "file" else st.st_size, st_mtime=t["mtime"], st_ctime=t["mtime"])
-        w.ctl.stat_hook = hook
+        if not native:
+            w.ctl.stat_hook = hook
+        elif native == "memory":
+            # the backend's own time stamps: modification time as wanted, creation time something else
+            def walk(nodes, inside):
+                for n in nodes:
+                    if inside and n.name in by:
+                        n.mtime = by[n.name]["mtime"]
+                        n.ctime = max(0, by[n.name]["mtime"] - 98765)
+                    if n.type == "dir":
+                        walk(n.content, n.name == "dir")
+            walk(w.ctl.state, False)
+        else:
+            for t in truth:
+                os.utime(str(w.root.joinpath("R", "dir", t["name"])), (1, t["mtime"]))
         if fallback:
             w.server.commands_mapping.pop("mlsd")
             w.server.commands_mapping.pop("mlst")
@@ -180,6 +197,8 @@ def run(tier, seed):
     cases = [c for part in fn for c in part]
     nl = 120 if tier == "quick" else 1500
     jobs = [(ZONES[k % 3][0], ZONES[k % 3][1], seed * 1000 + k, k % 2 == 1) for k in range(nl)]
+    # the same with the backend's own time stamps instead of spoofed stat results (creation time differs from modification time)
+    jobs += [(ZONES[k % 3][0], ZONES[k % 3][1], seed * 1000 + 500000 + k, k % 2 == 1, "memory" if k % 4 < 2 else "path") for k in range(nl // 2)]
     for r in P.map(listing_case, jobs, chunksize=4):
         if r["crash"]:
             raise RuntimeError("harness failure: " + r["crash"])
